@@ -97,6 +97,7 @@ THEOREMS = [
     'CpProofs.C03.bindDecision_status',
     'CpProofs.C03.C03_bind_400_needs_body_key',
     'CpProofs.C03.C03_bind_5xx_witnesses',
+    'CpProofs.C03.C03_bind_self_key_repaired',
     'CpProofs.C03.C03_bind_never_5xx_full_false',
     'CpProofs.C03.C03_bind_never_5xx_partial',
     'CpProofs.C03.respond_status',
@@ -140,10 +141,13 @@ LEVEL_TEXT = ('Proved in Lean over the transcribed decoders, for every list of (
               '(C03_multipart_merge, C03_multipart_handler_sees, fieldAtoms_eq_none: refusal per field, not per body). '
               'Binding: a handler that takes any keyword is called with exactly request.params incl. late assignments '
               '(C03_bind_catchall, respond_catchall, lookup_lateKwargs); binding answers 404/400/500 only, 400 only with a '
-              'body key; "never a 5xx from binding" is FALSE for the code (C03_bind_never_5xx_full_false: key self to a '
-              'method, required keyword-only parameter missing, positional-only named by keyword, plain-function handlers) '
-              'and proved for bound handlers without positional-only / required keyword-only parameters '
-              '(C03_bind_never_5xx_partial: test_callable_spec is complete there). Partial: query_string_encoding and '
+              'body key; "never a 5xx from binding" is FALSE for the code, repaired or not (C03_bind_never_5xx_full_false: '
+              'required keyword-only parameter missing, positional-only named by keyword, plain-function handlers; the '
+              'key self sent to a method was a fourth class until repair 172eec3, C03_bind_self_key_repaired: 404/400 now) '
+              'and proved for bound handlers without positional-only / required keyword-only parameters, for the repaired '
+              'code whatever the keys (C03_bind_never_5xx_partial: test_callable_spec is complete there); whether the '
+              'live test_callable_spec checks the bound first argument is probed on every run (Gen specChecksBoundArg) '
+              'and the model follows the probe. Partial: query_string_encoding and '
               'uri_encoding are proved for ASCII-compatible codecs only; Content-Type header syntax, multipart framing and '
               'CPython codecs other than UTF-8 are compared, not proved.')
 LEVEL_NOTE = ('Trusted: Lean kernel (axioms propext, Classical.choice, Quot.sound only); the hand model '
@@ -208,6 +212,9 @@ def tables(ctx):
 
     body = _cpreqbody.RequestBody(io.BytesIO(b''), httputil.HeaderMap())
     procs = sorted((k, getattr(v, '__name__', repr(v))) for k, v in body.processors.items())
+    # probe: does test_callable_spec refuse a parameter named like the bound first argument (repair 172eec3)?
+    probe = c03_bind.make_root(dict(c03_bind.CATCH_ALL, kind='method', varargs=False), lambda loc: None)
+    bound_arg_checked = c03_bind.live_spec(cherrypy, probe.default, [], {'self': '1'}, []) == 404
     pct1 = [lst(uq(b'%' + bytes([b]))) for b in range(256)]
     pcthex = ['(%d, %d, %s)' % (h, l, lst(uq(b'%' + bytes([h, l])))) for h in hexd for l in hexd]
     src = [
@@ -229,6 +236,9 @@ def tables(ctx):
         '/-- `RequestBody(...).processors`: media type (or top-level type) -> processor function, sorted by key -/',
         'def requestBodyProcessors : List (String × String) := [%s]'
         % ', '.join('(%s, %s)' % (json.dumps(k), json.dumps(v)) for k, v in procs),
+        '',
+        "/-- probed: `test_callable_spec(<bound method def f(self, **kw)>, [], {'self': '1'})` raises HTTPError(404) -/",
+        'def specChecksBoundArg : Bool := %s' % ('true' if bound_arg_checked else 'false'),
         '',
         '/-- `_cpreqbody.Part.attempt_charsets` (class default) -/',
         'def partAttemptCharsets : List String := %s' % strs(_cpreqbody.Part.attempt_charsets),
@@ -2098,6 +2108,9 @@ def _run(ctx):
                                            % (ctx.budget(5, 6), ctx.budget(3, 4)))
     check_histories(ctx, corpus_histories())
     check_dim_grid(ctx)
+    probe = c03_bind.make_root(dict(c03_bind.CATCH_ALL, kind='method', varargs=False), lambda loc: None)
+    ctx.extra['test_callable_spec_checks_bound_first_argument'] = (
+        c03_bind.live_spec(_cherrypy(), probe.default, [], {'self': '1'}, []) == 404)
     if ctx.quick():
         check_histories(ctx, [gen_history(ctx.rng) for _ in range(700)])
         check_requests(ctx, gen_mixed(ctx.rng, 5000))
